@@ -70,6 +70,9 @@ Params(f) ==
     [] f = "Sandwich" -> [kind |-> {"PlanarSandwich", "PlanarSandwichHot", "PlanarSandwichHalf"}, kappa |-> Pick({<<1, 1>>, <<1, 2>>}, {}),
                           L |-> Pick({<<2, 1>>, <<3, 1>>}, {}), TL |-> Pick({<<0, 1>>, <<3, 1>>}, {}), TR |-> Pick({<<0, 1>>, <<2, 1>>}, {}),
                           b1 |-> Pick({<<1, 1>>, <<2, 1>>}, {}), b2 |-> Pick({<<0, 1>>, <<1, 2>>}, {})]
+    [] f = "RiemannJWL" -> \* the two JWL problems shipped with the repository, with rescaled left density / right pressure and a left velocity
+                           [case |-> {"Shyue", "Lee"}, rscale |-> Pick({<<1, 1>>, <<6, 5>>}, {<<4, 5>>}), pscale |-> Pick({<<1, 1>>, <<3, 2>>}, {}),
+                            ul |-> Pick({<<0, 1>>, <<1, 5>>}, {<<-1, 5>>})]
     [] f = "SDRZ" -> [D |-> Pick({<<17, 20>>, <<1, 1>>}, {<<2, 1>>}), rho_0 |-> Pick({<<8, 5>>, <<1, 1>>}, {}), gamma |-> Pick({<<3, 1>>, <<7, 5>>}, {<<5, 3>>})]
     [] f = "BBNoh" -> \* black-box-EOS Noh: EOS class, its gamma and one further constant (sound speed / co-volume scale)
                       [eos |-> {"ideal", "stiffened", "noble_abel", "carnahan_starling"}, gamma |-> Pick({<<5, 3>>, <<7, 5>>}, {<<3, 1>>}),
@@ -127,6 +130,7 @@ TimesOf(f, p) ==
     [] f = "Blake" -> Pick({<<1, 20>>, <<1, 10>>}, {})
     [] f \in {"RadShock", "Riemann2D"} -> {<<1, 1>>}
     [] f = "BBNoh" -> Pick({<<3, 5>>}, {<<3, 2>>})
+    [] f = "RiemannJWL" -> Pick({<<12, 1>>}, {<<5, 1>>})
     [] f = "SDRZ" -> Pick({<<1, 2>>, <<2, 1>>, <<13, 5>>}, {<<1, 1>>})       \* before / after the end of the reaction (t = 1), 2.6 is not on the solver's time grid
     [] f = "SuOlson" -> Pick({<<1, 10>>, <<1, 1>>, <<10, 1>>}, {<<1, 100>>, <<3, 1>>})     \* dimensionless time tau
     [] f \in {"Rod1D", "Hutchens1", "RodNH", "Sandwich", "Rectangle", "Hutchens2"} -> Pick({<<1, 10>>, <<1, 2>>}, {<<1, 100>>})
@@ -136,7 +140,7 @@ TimesOf(f, p) ==
 (* fractional power of a negative number): the mathematics, not a        *)
 (* documented restriction of the solver                                  *)
 Geom(f, p) == IF "geometry" \in DOMAIN p THEN p.geometry
-              ELSE IF f \in RiemannFams \cup {"EHEP", "Mader", "EPpiston", "Rod1D", "RodNH", "Sandwich", "SuOlson", "RadShock", "SDRZ"} THEN 1 ELSE IF f = "Riemann2D" THEN 2 ELSE IF f = "BBNoh" THEN p.symmetry + 1 ELSE IF f = "DSDcyl" THEN 2 ELSE 3
+              ELSE IF f \in RiemannFams \cup {"RiemannJWL"} \cup {"EHEP", "Mader", "EPpiston", "Rod1D", "RodNH", "Sandwich", "SuOlson", "RadShock", "SDRZ"} THEN 1 ELSE IF f = "Riemann2D" THEN 2 ELSE IF f = "BBNoh" THEN p.symmetry + 1 ELSE IF f = "DSDcyl" THEN 2 ELSE 3
 Defined(f, p, t) ==
   LET k == Geom(f, p) - 1 IN
   CASE f \in RiemannFams -> /\ ~(QEq(p.pl, p.pr) /\ QEq(p.ul, p.ur))                   \* a pure contact has no acoustic waves
